@@ -84,6 +84,7 @@ class State:
         self.old     = None        # entry snapshot: dict name -> Val
         self.trace   = list()      # branch decisions (for reports)
         self.rebound = set()       # parameters re-assigned (no longer the caller's object)
+        self.handling = None       # exception class being handled (for bare `raise`)
         self.heads   = dict()      # loop ordinal -> env snapshot at loop head
         self.qvars   = dict()      # quantifier-bound variables in scope
 
@@ -93,6 +94,7 @@ class State:
         s.guards, s.old, s.trace = list(self.guards), self.old, list(self.trace)
         s.heads, s.qvars = dict(self.heads), dict(self.qvars)
         s.rebound = set(self.rebound)
+        s.handling = self.handling
         return s
 
     def assume(self, c):
@@ -796,7 +798,15 @@ class Executor:
             self.fail(st, b.term == 0, 'ZeroDivisionError')
             if real:
                 raise OutsideSubset('float modulo')
-            return Val(TInt, a.term - b.term * C.floordiv_int(a.term, b.term))
+            r = Val(TInt, a.term - b.term * C.floordiv_int(a.term, b.term))
+            # consequences of the definition that linear arithmetic can use
+            st.assume(z3.Implies(b.term > 0, z3.And(r.term >= 0, r.term < b.term)))
+            st.assume(z3.Implies(z3.And(b.term > 0, 0 <= a.term, a.term < b.term),
+                                 r.term == a.term))
+            st.assume(z3.Implies(z3.And(b.term > 0, b.term <= a.term,
+                                        a.term < 2 * b.term),
+                                 r.term == a.term - b.term))
+            return r
         raise OutsideSubset('binary %s' % type(op).__name__)
 
     def list_concat(self, a, b, st):
@@ -1284,6 +1294,19 @@ class Executor:
         return [('next', st, None)]
 
     def st_Expr(self, node, st):
+        if isinstance(node.value, ast.Yield):
+            # generator: the yielded values are collected in the ghost list
+            # `yielded` (declared in the spec's ghost section); the consumer is
+            # assumed not to interfere between two yields
+            v = self.ev(node.value.value, st) if node.value.value else NONE
+            log = self.get_var(st, 'yielded')
+            if log is None:
+                raise SpecError('generator: declare ghost yielded=List[..]')
+            ty = log.ty
+            n = ty.len(log.term)
+            st.env['yielded'] = Val(ty, ty.mk(z3.Store(ty.arr(log.term), n,
+                                    coerce(v, ty.elem).term), n + 1))
+            return [('next', st, None)]
         self.ev(node.value, st)
         return [('next', st, None)]
 
@@ -1414,7 +1437,7 @@ class Executor:
 
     def st_Raise(self, node, st):
         if node.exc is None:
-            return [('raise', st, ('<reraise>', self.cur_line))]
+            return [('raise', st, (st.handling or '<reraise>', self.cur_line))]
         exc = node.exc
         if isinstance(exc, ast.Call):
             # evaluate the arguments: building the message may itself raise
@@ -1478,7 +1501,10 @@ class Executor:
                     if self.handler_matches(h, val[0]):
                         if h.name:
                             s.env[h.name] = ExcVal(val[0])
-                        after.extend(self.exec_block(h.body, s))
+                        prev, s.handling = s.handling, val[0]
+                        for k2, s2, v2 in self.exec_block(h.body, s):
+                            s2.handling = prev
+                            after.append((k2, s2, v2))
                         handled = True
                         break
                 if not handled:
